@@ -2,6 +2,7 @@ package main
 
 import (
 	"go/ast"
+	"go/token"
 	"go/types"
 	"sort"
 	"strings"
@@ -134,22 +135,30 @@ func recvName(fd *ast.FuncDecl) string {
 // compressionCases: the set of CompressionFormat constants (by value) a function switches over.
 func compressionCases(g *goLayouts, fd *ast.FuncDecl) map[string]bool {
 	out := map[string]bool{}
-	ast.Inspect(fd.Body, func(n ast.Node) bool {
-		cc, ok := n.(*ast.CaseClause)
-		if !ok {
-			return true
-		}
-		for _, e := range cc.List {
-			ast.Inspect(e, func(m ast.Node) bool {
-				if id, ok := m.(*ast.Ident); ok {
-					if c, ok := g.info.ObjectOf(id).(*types.Const); ok {
-						if nt, ok := c.Type().(*types.Named); ok && nt.Obj().Name() == "CompressionFormat" {
-							out[c.Val().ExactString()] = true
-						}
+	note := func(e ast.Expr) {
+		ast.Inspect(e, func(m ast.Node) bool {
+			if id, ok := m.(*ast.Ident); ok {
+				if c, ok := g.info.ObjectOf(id).(*types.Const); ok {
+					if nt, ok := c.Type().(*types.Named); ok && nt.Obj().Name() == "CompressionFormat" {
+						out[c.Val().ExactString()] = true
 					}
 				}
-				return true
-			})
+			}
+			return true
+		})
+	}
+	ast.Inspect(fd.Body, func(n ast.Node) bool {
+		switch x := n.(type) {
+		case *ast.CaseClause:
+			for _, e := range x.List {
+				note(e)
+			}
+		case *ast.BinaryExpr:
+			// if/else chains: compression == CompressionZSTD
+			if x.Op == token.EQL {
+				note(x.X)
+				note(x.Y)
+			}
 		}
 		return true
 	})
